@@ -22,7 +22,7 @@ from harness import c17_oracle as O
 from harness import c17_setter as S
 from harness.c17_impl import Impl
 
-KNOWN_IDS = ('C17-missing-handback',)
+KNOWN_IDS = ()      # no finding open (C17-missing-handback fixed by ed45313)
 
 
 class C17(Check):
